@@ -78,7 +78,9 @@ def nontrivial(prog, steps):
 
 def main(argv):
     return rcheck.run(
-        PID, argv, module="C03", theorems=['C03_run_node_spec', 'C03_untracked_reads_do_not_subscribe', 'C03_eval_depends_on_reads_only', 'C03_edges_symmetric'], bridge=1500, extra_targets=["theories/Reactive/Bridge.vo"], gen=gen, oracle=rcheck.subscription_failures, nontrivial=nontrivial,
+        PID, argv, module="C03", theorems=['C03_run_node_spec', 'C03_untracked_reads_do_not_subscribe', 'C03_eval_depends_on_reads_only', 'C03_edges_symmetric',
+                                          'C03_untrack_never_subscribes', 'C03_component_never_subscribes', 'C03_cleanups_never_subscribe', 'C03_rerun_cleanups_never_subscribe',
+                                          'C03_on_tracks_deps_only', 'C03_get_untracked_never_subscribes', 'C03_get_subscribes'], bridge=1500, extra_targets=["theories/Reactive/Bridge.vo"], gen=gen, oracle=rcheck.subscription_failures, nontrivial=nontrivial,
         rule=("read-form combinatorics: every pair of the 11 read forms (get, get_untracked, untrack, component body, on() "
               "dependency, on() body, cleanup callback, track, nested scope, duplicate read, signal created in the same run) in "
               "a memo, an effect and a selector, followed by a write to every signal; random programs rich in untracked forms; "
